@@ -44,6 +44,19 @@ CHECKS['C16'] = dict(
     design_ref='DESIGN.md section 4 C16',
     note='decoder abstracted (fresh message object, arbitrary valid/flags/QU bit); callees after the guard abstracted by '
          'arbitrary effects; QU datagrams (exempted by the statement) not claimed; 2-tuple address form')
+CHECKS['C03'] = dict(
+    text='The registry side of the statement is proved for all histories: a representation invariant (name table, type '
+         'and host indexes exactly mirror the registered services, no empty bucket, no duplicates) is preserved by add, '
+         'remove, update; every index lookup returns exactly the registered services with that lower-cased key; '
+         '(re)registration clears the record memos (replies reflect only the new state). The question-to-lookup map '
+         '(_get_answer_strategies) is proved exact for every question type incl. ANY and the enumeration name, and '
+         'known-answer suppression (DNSRRSet.suppresses) is proved to need a listed record of the same identity with '
+         'more than half the TTL. Not under contract in this build (stated in DESIGN.md): the per-strategy answer '
+         'builders (_add_pointer_answers/_add_address_answers/_answer_question), _add_answers_additionals and the '
+         'ServiceInfo record builders.',
+    design_ref='DESIGN.md section 4 C03',
+    note='registered ServiceInfo objects have a server and are not mutated behind the registry; address memo lists '
+         'modelled by validity flags; functions listed as not under contract are outside the proof')
 NOT_APPLICABLE = {
     'C07': 'end-to-end liveness over several hosts and lossy delivery: no per-function contract can express it '
            '(DESIGN.md section 6)',
